@@ -96,6 +96,14 @@ func WrapContextForTest(ctx context.Context, call IncomingCall) context.Context 
 
 // newIncomingContext creates a new context for an incoming call with the given span.
 func newIncomingContext(ctx context.Context, call IncomingCall, timeout time.Duration) (context.Context, context.CancelFunc) {
+	if timeout == 0 {
+		// A zero time-to-live leaves the call no time. The builder treats a zero
+		// timeout as "inherit the parent's deadline", which would hand the handler
+		// the connection context's deadline instead, so expire the parent first.
+		expired, cancel := context.WithTimeout(ctx, 0)
+		defer cancel()
+		ctx = expired
+	}
 	return NewContextBuilder(timeout).
 		SetParentContext(ctx).
 		setIncomingCall(call).
